@@ -105,6 +105,7 @@ type Run struct {
 	pools map[*Value][]Value
 	kr    map[*Term]krInfo
 	krBound map[*Term]int64 // upper bounds of the non-negative components behind vf.Dur
+	stubs   map[string]Value // vf.Stub: function name -> replacement (a model of code outside the engine's reach)
 	durOf   map[*Term]durInfo // vf.Dur terms -> components
 	fpSecs  map[*Term]durInfo // float64 terms built by Duration.Seconds() from a vf.Dur term
 	allSchedules bool
@@ -184,7 +185,7 @@ func (m *Machine) newRun(prefix []int64) *Run {
 		reached: map[string]bool{}, assertIDs: map[string]int{},
 		locks: map[*Value]*lockState{}, conds: map[*Value]*condState{}, wgs: map[*Value]*wgState{}, onces: map[*Value]*onceState{},
 		strIDs: map[string]uint64{}, strByID: map[uint64]string{}, opaqueG: map[string]*Value{},
-		funcsHit: map[string]bool{}, pools: map[*Value][]Value{}, kr: map[*Term]krInfo{}, krBound: map[*Term]int64{}, durOf: map[*Term]durInfo{}, fpSecs: map[*Term]durInfo{},
+		funcsHit: map[string]bool{}, pools: map[*Value][]Value{}, kr: map[*Term]krInfo{}, krBound: map[*Term]int64{}, stubs: map[string]Value{}, durOf: map[*Term]durInfo{}, fpSecs: map[*Term]durInfo{},
 	}
 	r.nowT = mkBV(64, 1_000_000_000_000) // virtual clock, ns
 	r.mapOrderAll = m.opts.AllMapOrders
